@@ -134,47 +134,47 @@ Theorem C19_same_key_all_types_refuted : ~ C19_same_key_all_types_statement.
 Proof. exact same_key_all_types_refuted. Qed.
 Print Assumptions C19_same_key_all_types_refuted.
 
-(* ---- does Close return? ---- *)
-(* Full statement: once Close waits, some continuation lets it return.  Refuted: the writer
-   decides `default:` in its select, the batching loop then signals done, broadcasts and leaves,
-   and only then the writer takes the buffer lock, finds it empty and enters cond.Wait — nobody
-   is left to wake it (lost wake-up), Close waits for ever.  Reproduced on the real code by the
-   harness's race search (KNOWN_FINDINGS C19-a). *)
-Definition C19_close_terminates_statement : Prop := close_terminates_statement.
-Theorem C19_close_terminates_refuted : ~ C19_close_terminates_statement.
-Proof. exact close_terminates_refuted. Qed.
-Print Assumptions C19_close_terminates_refuted.
-
-Theorem C19_close_can_hang :
-  let s := run hang_sched init in
-  lost_wakeup s /\ forall sched', cp (run sched' s) <> CReturned.
-Proof. exact close_can_hang. Qed.
-Print Assumptions C19_close_can_hang.
-
-(* Partial: under every scheduling policy that keeps scheduling a process that can move (and
-   no further publication), from every reachable state in which Close has been called, within
-   [measure s] steps either Close has returned or the system sits in exactly the lost wake-up
-   state — in which, by definition of [lost_wakeup], every accepted event was delivered. *)
-Theorem C19_close_terminates_partial : forall pol sched,
+(* ---- Close returns ---- *)
+(* Under every scheduling policy that keeps scheduling a process that can move (and no further
+   publication), from every reachable state in which Close has been called, Close has returned
+   after at most [measure s] steps.  (Before FifoBuffer got its `released` flag this failed: the
+   lost wake-up below; the flag is read from fifobuffer.go on every run — ew_release_sticky — so
+   a revert breaks this proof.) *)
+Theorem C19_close_terminates : forall pol sched,
   fair_policy pol ->
   let s := run sched init in
   cp s <> CNot ->
-  exists n, (n <= measure s)%nat /\
-            (cp (drive pol n s) = CReturned \/ lost_wakeup (drive pol n s)).
-Proof. exact close_returns_or_lost_wakeup. Qed.
-Print Assumptions C19_close_terminates_partial.
+  exists n, (n <= measure s)%nat /\ cp (drive pol n s) = CReturned.
+Proof. exact close_terminates. Qed.
+Print Assumptions C19_close_terminates.
+
+(* the state "batching loop gone, writer in cond.Wait without wake-up, Close waiting" is unreachable *)
+Theorem C19_no_lost_wakeup : forall sched, ~ lost_wakeup (run sched init).
+Proof. exact no_lost_wakeup. Qed.
+Print Assumptions C19_no_lost_wakeup.
+
+(* the schedule that used to hang (writer decides `default:`; Close; the batcher signals,
+   broadcasts and leaves; only then the writer enters PopMultiple): the writer now comes back
+   empty-handed to its select with the done token present, and four more steps let Close return *)
+Theorem C19_old_hang_schedule_terminates :
+  wp (run hang_sched init) = WSelect /\ done_sig (run hang_sched init) = true /\
+  cp (run (hang_sched ++ [LW; LW; LW; LC]) init) = CReturned.
+Proof. exact old_hang_schedule_terminates. Qed.
+Print Assumptions C19_old_hang_schedule_terminates.
 
 (* every step of the batching loop, the writing loop or Close decreases [measure]: no busy
    loop, finitely many steps between two publications *)
-Theorem C19_service_steps_decrease_measure : forall l s,
+Theorem C19_service_steps_decrease_measure : forall sched l,
+  let s := run sched init in
   (l = LB \/ l = LW \/ l = LC) -> can l s = true -> (measure (step l s) < measure s)%nat.
-Proof. exact measure_decreases. Qed.
+Proof. exact measure_decreases_reach. Qed.
 Print Assumptions C19_service_steps_decrease_measure.
 
 (* the constants read from writer.go on this run are within what the model assumes: the done
-   signal never blocks (capacity 1), the done branch drains, batch limits are within 1..100 *)
+   signal never blocks (capacity 1), the done branch drains, a released FifoBuffer does not
+   block, batch limits are within 1..100 *)
 Theorem C19_translated_constants_fit_model :
-  ew_done_cap = 1 /\ ew_drain_on_done = true /\
+  ew_done_cap = 1 /\ ew_drain_on_done = true /\ ew_release_sticky = true /\
   (forall d, (1 <= pop_max d <= 100)%nat) /\ (1 <= N.to_nat ew_chan_cap)%nat.
 Proof. exact constants_fit_model. Qed.
 Print Assumptions C19_translated_constants_fit_model.
